@@ -108,15 +108,15 @@ def overlapSafe (l : Log) (overlap : List Entry) : Bool :=
   | some f => decide (l.ls ≤ f.index) && f.term == l.lt &&
       (match overlap.getLast? with | none => true | some x => x.term == l.lt)
 
-/-- The slow path alone (also used as the specification the fast path must agree with). -/
+/-- The slow path alone (also used as the specification the fast path must agree with):
+    `position(|e| e.index > last || entry_term(e.index) != Some(e.term))`, then the slice from there. -/
 def slowPath (l : Log) (es : List Entry) : Log × Option (Nat × Nat) × String :=
-  match es.findIdx? (diverges l) with
-  | none => (l, es.getLast?.map idOf, "slow-none")
-  | some pos =>
-    let tail := es.drop pos
-    let d := match es[pos]? with | some e => e.index | none => 0
-    if d ≤ l.lastIdx then (appendE (removeFrom l d) tail, tail.getLast?.map idOf, "slow-conflict")
-    else (appendE l tail, tail.getLast?.map idOf, "slow-append")
+  match es.dropWhile (fun e => !diverges l e) with
+  | [] => (l, es.getLast?.map idOf, "slow-none")
+  | e :: rest =>
+    if e.index ≤ l.lastIdx then
+      (appendE (removeFrom l e.index) (e :: rest), (e :: rest).getLast?.map idOf, "slow-conflict")
+    else (appendE l (e :: rest), (e :: rest).getLast?.map idOf, "slow-append")
 
 /-- `filter_out_conflicts_and_append` → (new log, returned last log id, branch tag). -/
 def filterAppend (l : Log) (prev prevTerm : Nat) (es : List Entry) : Log × Option (Nat × Nat) × String :=
@@ -300,5 +300,106 @@ def onConflict (l : Log) (ct ci : Option Nat) (curNext : Nat) : Nat :=
     | none, some i => i
     | _, _ => curNext - 1
   max nx 1
+
+/-! ### Decidable predicates (used by the theorems in Props/C08, C36, C07 and, evaluated on the
+    implementation's outputs, by the monitors of `drv_repl`) -/
+
+/-- indexes are `s, s+1, s+2, …`. -/
+def contigFrom (s : Nat) : List Entry → Bool
+  | [] => true
+  | e :: es => e.index == s && contigFrom (s + 1) es
+
+/-- no index gaps. -/
+def gapFree (es : List Entry) : Bool := contigFrom (firstOf es) es
+
+/-- C08, request side: entries are consecutive and start right after `prev`. -/
+def Req.contig (r : Req) : Bool := contigFrom (r.prev + 1) r.ents
+
+/-- terms never decrease along the entries (and are ≥ `t`). -/
+def termsFrom (t : Nat) : List Entry → Bool
+  | [] => true
+  | e :: es => decide (t ≤ e.term) && termsFrom e.term es
+
+def termsMono (es : List Entry) : Bool := termsFrom 0 es
+
+/-- Well-formed log: gap-free, indexes ≥ 1, entries start right after the purge boundary (if any). -/
+def Log.wf (l : Log) : Bool :=
+  gapFree l.ents && (l.ents.isEmpty || decide (1 ≤ l.firstIdx)) &&
+  (l.pIdx == 0 || l.ents.isEmpty || l.firstIdx == l.pIdx + 1)
+
+/-- `TermSegments` hot atomics are consistent with the entries: everything at or above
+    `last_term_start` carries `last_term`. -/
+def segOK (l : Log) : Bool := l.ents.all fun e => !(decide (l.ls ≤ e.index)) || e.term == l.lt
+
+/-- "as far as the request tells, the follower's entry at index `i` agrees with the leader": every request
+    entry up to `i` is matched (same term) by the follower's log. -/
+def agreesUpTo (l : Log) (es : List Entry) (i : Nat) : Bool :=
+  es.all fun r => !(decide (r.index ≤ i)) || l.entryTerm r.index == some r.term
+
+/-- C08, follower side: entries at or below `prev`, and entries that agree with the leader as far as the
+    request tells, are still there afterwards. -/
+def agreeKept (l : Log) (prev : Nat) (es : List Entry) (l' : Log) : Bool :=
+  l.ents.all fun e => !(decide (e.index ≤ prev) || agreesUpTo l es e.index) || l'.ents.contains e
+
+/-- every queued request is swallowed by the merge loop (one merged request for the whole queue). -/
+def allMerge (maxMerge : Nat) (acc : Req) (np : Nat) : List (Req × Nat) → Bool
+  | [] => true
+  | (r, _) :: rest => canMerge maxMerge acc np r && allMerge maxMerge (mergeReq acc r) (np + r.ents.length) rest
+
+/-- no queued request is merged with its predecessor. -/
+def noMerge (maxMerge : Nat) (acc : Req) : List (Req × Nat) → Bool
+  | [] => true
+  | (r, _) :: rest => !(canMerge maxMerge acc (acc.prev + acc.ents.length) r) && noMerge maxMerge r rest
+
+/-- prev_log_term of the next request is what the chain so far implies (the merge rule does not look at it). -/
+def prevTermOK (acc r : Req) : Bool :=
+  match acc.ents.getLast? with
+  | some e => r.prevTerm == e.term
+  | none => r.prevTerm == acc.prevTerm
+
+/-- The queue behind `acc` is what ONE leader sends over an ordered stream: every request contiguous, its
+    prev term consistent with the chain, entry terms non-decreasing along the chain, leader commit
+    non-decreasing. (`acc` = the requests merged so far.) -/
+def chainWF (acc : Req) : List (Req × Nat) → Bool
+  | [] => true
+  | (r, _) :: rest =>
+    r.contig && prevTermOK acc r && decide (acc.commit ≤ r.commit) && termsMono (acc.ents ++ r.ents) &&
+    chainWF (mergeReq acc r) rest
+
+/-- C36 premise. -/
+def mergeable (maxMerge : Nat) (st : FState) (r : Req) (rest : List (Req × Nat)) : Bool :=
+  allMerge maxMerge r (r.prev + r.ents.length) rest && r.contig && termsMono r.ents && chainWF r rest &&
+  st.log.wf && segOK st.log
+
+/-- the follower's log does not reach beyond the end of the first request once that request is handled
+    (no unverified tail behind the chain). -/
+def noTail (st : FState) (r : Req) : Bool :=
+  decide ((stepReq st r).1.log.lastIdx ≤ r.prev + r.ents.length)
+
+def Ack.matchId : Ack → Option (Nat × Nat)
+  | .success _ m => m
+  | _ => none
+
+/-- C36 acknowledgement equivalence (DESIGN C36): every sender gets a success both ways, and the merged
+    ack carries the match position of the LAST sequential ack — so folding either list through the
+    leader's `update_peer_index` (match = max, next = max(cur, match+1)) gives the same result. -/
+def ackEquiv (merged seq : List Ack) : Bool :=
+  merged.length == seq.length && merged.all Ack.isSuccess && seq.all Ack.isSuccess &&
+  merged.all (fun a => a.matchId == (seq.getLast?.bind Ack.matchId))
+
+/-- C07: what the leader's log looks like to the follower-side theorems. -/
+def cutFrom (ldr : List Entry) (r : Req) : Bool :=
+  r.contig && r.ents.all (fun e => findE ldr e.index == some e) &&
+  (r.prev == 0 && r.prevTerm == 0 || (findE ldr r.prev).map (·.term) == some r.prevTerm)
+
+/-- follower and leader hold the same entry at every index in `(lo, hi]`. -/
+def agreeRange (ents ldr : List Entry) (lo hi : Nat) : Bool :=
+  (List.range (hi - lo)).all fun k => findE ents (lo + 1 + k) == findE ldr (lo + 1 + k)
+
+/-- Log Matching between the follower's entries and the leader's log: equal index and term ⇒ same entry. -/
+def logMatching (ents ldr : List Entry) : Bool :=
+  ents.all fun e => match findE ldr e.index with
+    | some e' => !(e'.term == e.term) || e' == e
+    | none => true
 
 end DEngine.Repl
